@@ -42,6 +42,9 @@ func (i *Interp) findIntrinsic(fn *ssa.Function) intrinsic {
 			return intrNoop
 		}
 	}
+	if f := i.sqlIntrinsic(fn, name); f != nil {
+		return f
+	}
 	if f := i.nativeBridge(fn, name); f != nil {
 		return f
 	}
